@@ -215,3 +215,19 @@ pub mod peer {
         items.len()
     }
 }
+
+pub mod moka {
+    pub mod sync {
+        pub struct Cache<K, V, S = ()>(pub std::marker::PhantomData<(K, V, S)>);
+        impl<K, V, S> Cache<K, V, S> {
+            pub fn insert(&self, _k: K, _v: V) {}
+        }
+    }
+}
+
+pub mod tree {
+    /// C14.R1 control: a node that did not come from storage is put into the cache.
+    pub fn ctl_cache_changeset_node(cache: &super::moka::sync::Cache<u64, u64>, index: u64, node: u64) {
+        cache.insert(index, node);
+    }
+}
